@@ -507,6 +507,11 @@ Ltac rw_eqs :=
          | H : ?p ?s = _ |- _ => is_var s; progress (rewrite H in * |-)
          end.
 
+Ltac rw_goal :=
+  repeat match goal with
+         | H : ?p ?s = _ |- _ => is_var s; rewrite H
+         end.
+
 (* case analysis of one step of any thread; the goal is simplified *)
 Ltac step_split t Hst :=
   destruct t as [?pick|?i]; cbn [step] in Hst; [co_cases Hst | wk_cases Hst]; msimpl.
